@@ -198,54 +198,54 @@ is done. -/
 theorem code_matches_model :
     Gen.Sub.subscribe =
       ["c.Lock()",
-       "defer c.Unlock()",
-       "_, ok := c.subscribed[svcName]",
-       "if ok { return }",
-       "c.subscribed[svcName] = struct{}{}",
-       "c.addPendingLocked(svcName, true)"] ∧
+      "defer c.Unlock()",
+      "_, ok := c.subscribed[svcName]",
+      "if ok { return }",
+      "c.subscribed[svcName] = struct{}{}",
+      "c.addPendingLocked(svcName, true)"] ∧
     Gen.Sub.unsubscribe =
       ["c.Lock()",
-       "defer c.Unlock()",
-       "_, ok := c.subscribed[svcName]",
-       "if !ok { return }",
-       "delete(c.subscribed, svcName)",
-       "c.addPendingLocked(svcName, false)"] ∧
+      "defer c.Unlock()",
+      "_, ok := c.subscribed[svcName]",
+      "if !ok { return }",
+      "delete(c.subscribed, svcName)",
+      "c.addPendingLocked(svcName, false)"] ∧
     Gen.Sub.addPendingLocked =
       ["c.pending = append(c.pending, subscriptionChange{svcName, subscribe})",
-       "select { case c.notify <- struct{}{}: default: }"] ∧
+      "select { case c.notify <- struct{}{}: default: }"] ∧
     Gen.Sub.takePending =
       ["c.Lock()",
-       "pending := c.pending",
-       "c.pending = nil",
-       "c.Unlock()",
-       "latest := make(map[string]int, len(pending))",
-       "for i, change := range pending { latest[change.svcName] = i }",
-       "for i, change := range pending { if latest[change.svcName] != i { continue } if change.subscribe { subscribed = append(subscribed, change.svcName) } else { unsubscribed = append(unsubscribed, change.svcName) } }",
-       "return"] ∧
+      "pending := c.pending",
+      "c.pending = nil",
+      "c.Unlock()",
+      "latest := make(map[string]int, len(pending))",
+      "for i, change := range pending { latest[change.svcName] = i }",
+      "for i, change := range pending { if latest[change.svcName] != i { continue } if change.subscribe { subscribed = append(subscribed, change.svcName) } else { unsubscribed = append(unsubscribed, change.svcName) } }",
+      "return"] ∧
     Gen.Sub.resubscribe =
       ["c.Lock()",
-       "svcNames := make([]string, 0, len(c.subscribed))",
-       "for svcName := range c.subscribed { svcNames = append(svcNames, svcName) }",
-       "c.pending = nil",
-       "c.Unlock()",
-       "if len(svcNames) == 0 { return nil }",
-       "return stream.Send(svcNames, nil)"] ∧
+      "svcNames := make([]string, 0, len(c.subscribed))",
+      "for svcName := range c.subscribed { svcNames = append(svcNames, svcName) }",
+      "c.pending = nil",
+      "c.Unlock()",
+      "if len(svcNames) == 0 { return nil }",
+      "return stream.Send(svcNames, nil)"] ∧
     Gen.Sub.loopSend =
       ["for { select { case <-c.notify: case <-stop: return } subscribed, unsubscribed := c.takePending() if len(subscribed) == 0 && len(unsubscribed) == 0 { continue } err := stream.Send(subscribed, unsubscribed) if err != nil { logger.Warnf(\"Send to service %s discovery stream failed: %v\", c.scope, err) return } }"] ∧
     Gen.Sub.loopRecv =
       ["for { if err := stream.Recv(); err != nil { logger.Warnf(\"Recv from service %s stream failed: %v\", c.scope, err) return } }"] ∧
     Gen.Sub.runOnce =
       ["stream, err := c.newStream(ctx)",
-       "if err != nil { logger.Warnf(\"Fail to create service %s discovery stream: %v\", c.scope, err) return }",
-       "if err := c.resubscribe(stream); err != nil { logger.Warnf(\"Resubscribe services on %s discovery stream failed: %v\", c.scope, err) return }",
-       "recvDone := make(chan struct{})",
-       "defer func() { <-recvDone }()",
-       "go func() { defer close(recvDone) c.loopRecv(stream) }()",
-       "c.loopSend(stream, recvDone)"] ∧
+      "if err != nil { logger.Warnf(\"Fail to create service %s discovery stream: %v\", c.scope, err) return }",
+      "if err := c.resubscribe(stream); err != nil { logger.Warnf(\"Resubscribe services on %s discovery stream failed: %v\", c.scope, err) return }",
+      "recvDone := make(chan struct{})",
+      "defer func() { <-recvDone }()",
+      "go func() { defer close(recvDone) c.loopRecv(stream) }()",
+      "c.loopSend(stream, recvDone)"] ∧
     Gen.Sub.runLoop =
       ["jitter := 0.2",
-       "baseInterval := time.Second",
-       "for { c.run(ctx) select { case <-ctx.Done(): return default: } interval := time.Duration((1 + (2*rand.Float64()-1)*jitter) * float64(baseInterval)) logger.Warnf(\"The discovery loop of service %s terminated unexpectedly, retry after %s\", c.scope, interval) t := time.NewTimer(interval) select { case <-t.C: case <-ctx.Done(): return } }"] := by
+      "baseInterval := time.Second",
+      "for { c.run(ctx) select { case <-ctx.Done(): return default: } interval := time.Duration((1 + (2*rand.Float64()-1)*jitter) * float64(baseInterval)) logger.Warnf(\"The discovery loop of service %s terminated unexpectedly, retry after %s\", c.scope, interval) t := time.NewTimer(interval) select { case <-t.C: case <-ctx.Done(): return } }"] := by
   refine ⟨rfl, rfl, rfl, rfl, rfl, rfl, rfl, rfl, rfl⟩
 
 end SamVerif.Props.C16
